@@ -16,6 +16,7 @@ import (
 	"io"
 	"net/rpc"
 	"os"
+	"strings"
 	"sync"
 	"sync/atomic"
 	"syscall"
@@ -310,11 +311,16 @@ func (s *kitGRPCServer) Stream(stream grpctest.Test_StreamServer) error {
 // pingPong answers with its own id so that the dialler can tell who served it.
 type pingPong struct {
 	grpctest.UnimplementedPingPongServer
-	id uint32
+	id  uint32
+	pad int // extra bytes appended to the answer ("pong-<id>/xxxx…"): large responses over a brokered connection
 }
 
 func (p *pingPong) Ping(ctx context.Context, _ *grpctest.PingRequest) (*grpctest.PongResponse, error) {
-	return &grpctest.PongResponse{Msg: fmt.Sprintf("pong-%d", p.id)}, nil
+	msg := fmt.Sprintf("pong-%d", p.id)
+	if p.pad > 0 {
+		msg += "/" + strings.Repeat("x", p.pad)
+	}
+	return &grpctest.PongResponse{Msg: msg}, nil
 }
 
 func servePingPong(b *plugin.GRPCBroker, id uint32) {
